@@ -100,7 +100,7 @@ def run(ctx):
             groups.append((grp, elements_of(log), None, subset))
     ctx.exhaustive = (ctx.tier != 'quick')
     # random logs and books, with and without a single element
-    for _ in range(60 if ctx.tier == 'quick' else 1200):
+    for _ in range(300 if ctx.tier == 'quick' else 1200):
         book = g.book(depth=g.r.choice([0, 1, 2]), exact=True, unusual=0.15)
         if len(spec.book_map(book)) != len(book):
             continue
